@@ -217,6 +217,7 @@ def obs_pipeline(prop, tier, seed, work, t0, flavor="sync"):
         n += lc["n"]
         mc = dict(distinct=mc["distinct"] + lc["mc_states"], generated=mc["generated"] + lc["mc_trans"])
         extra.update(concurrent=dict(histories_judged=lc["runs"], forced_schedules=lc["nsched"], free_running_programs=lc["nfree"],
+                                     race_programs=lc["nrace"], runs_per_race_program=lc["race_reps"],
                                      history_events=lc["events"], harness_hang=lc["hang"],
                                      mc_config="ObsConc.tla, 3 threads, all interleavings at pause-point granularity"))
         single = nontriv
@@ -944,7 +945,7 @@ def _lin_classify(events, rej):
 
 def validate_lin(trace, work, tag="lin", max_rejects=40):
     """Linearization search with cut-and-continue: every rejected history is cut out and the rest re-checked."""
-    c = os.path.join(work, "TraceLin.cfg")
+    c = os.path.join(work, "TraceLin-%s.cfg" % tag)     # one config per parallel validator (never rewritten while another TLC reads it)
     write_cfg(c, spec="TraceSpec", constants=LIN_CONST, view="View", constraints=["Far"], postcondition="TraceAccepted")
     lines = open(trace).read().splitlines()
     runs = _lin_runs(trace)
@@ -957,13 +958,16 @@ def validate_lin(trace, work, tag="lin", max_rejects=40):
         part = os.path.join(work, "%s-part.ndjson" % tag)
         with open(part, "w") as f:
             f.write("\n".join(lines[start:]) + "\n")
-        r = tlc("TraceLin", c, work, workers=1, timeout=1500, env_extra={"TRACE": part}, tag=tag, dfs=True, xmx="4g")
+        r = tlc("TraceLin", c, work, workers=1, timeout=1500, env_extra={"TRACE": part}, tag=tag, dfs=True, xmx="2g")
         if r["rc"] == 124:
             raise ToolError("linearization search timed out")
         states += r["distinct"]
         if "STATS" not in r["out"]:
-            log(r["out"][-3000:])
-            raise ToolError("TraceLin did not finish")
+            with open(os.path.join(WORKROOT, "tracelin-failure.log"), "w") as f:
+                f.write(r["out"])
+            errs = [l for l in r["out"].splitlines() if "rror" in l or "xception" in l]
+            log("\n".join(errs[:20]))
+            raise ToolError("TraceLin did not finish (rc %d); full output in work/tracelin-failure.log" % r["rc"])
         m = _rej_re.search(r["out"])
         if not m:
             break
@@ -1035,6 +1039,16 @@ def lin_collect(prop, tier, seed, work, beh_path, offset):
     log("free-running programs: %d" % kfree)
     trace = os.path.join(work, "lin-trace.ndjson")
     hrc = run_harness(["threads", inputs, trace], timeout=3000)
+    # race family: every 3-call program over a small alphabet (complete tree), each run many times free-running
+    c = os.path.join(work, "GenLinRace.cfg")
+    write_cfg(c, spec="LSpecRace", constants=dict(LIN_CONST, Threads={1, 2, 3}, Depth=6 if quick else 7, SetupMin=0, SetupMax=9),
+              constraints=["BoundTree"], invariants=["PrintAtDepth"])
+    race = os.path.join(work, "lin-race.ndjson")
+    krace, _ = gen_behaviours("GenLin", c, work, race, "tree", tag="grace", workers=8)
+    reps = (150 if prop == "C04" else 30) if quick else (1500 if prop == "C04" else 300)
+    trace2 = os.path.join(work, "lin-trace-race.ndjson")
+    hrc2 = run_harness(["threads", race, trace2, "--repeat", str(reps), "--align", "--jitter", "100"], timeout=6000)
+    log("race programs: %d x %d runs" % (krace, reps))
     # validate in parallel chunks
     chunks = split_trace(trace, work, NCPU)
 
@@ -1052,8 +1066,6 @@ def lin_collect(prop, tier, seed, work, beh_path, offset):
         runs += r["runs"]
     for p in chunks:
         os.path.exists(p) and os.remove(p)
-    for v in viol:
-        v["run"] += offset
     n = 0
     with open(beh_path, "a") as o, open(inputs) as i:
         for line in i:
@@ -1061,8 +1073,30 @@ def lin_collect(prop, tier, seed, work, beh_path, offset):
                 o.write(line if line.endswith("\n") else line + "\n")
                 n += 1
     os.remove(trace)
-    return dict(violations=viol, states=states, events=events, runs=runs, n=n, nsched=nsched, nfree=kfree,
-                mc_states=mcs, mc_trans=mct, hang=(hrc == 3))
+    # race family traces: run id r belongs to program (r - 1) // reps
+    chunks = split_trace(trace2, work, NCPU)
+    with ThreadPoolExecutor(max_workers=NCPU) as ex:
+        results2 = list(ex.map(one, enumerate(chunks)))
+    for r in results2:
+        for v in r["violations"]:
+            v["run"] = n + (v["run"] - 1) // reps + 1
+        viol += r["violations"]
+        states += r["states"]
+        events += r["events"]
+        runs += r["runs"]
+    for p in chunks:
+        os.path.exists(p) and os.remove(p)
+    with open(beh_path, "a") as o, open(race) as i:
+        for line in i:
+            if line.strip():
+                o.write(line if line.endswith("\n") else line + "\n")
+                n += 1
+    os.remove(trace2)
+    os.remove(race)
+    for v in viol:
+        v["run"] += offset
+    return dict(violations=viol, states=states, events=events, runs=runs, n=n, nsched=nsched, nfree=kfree, nrace=krace, race_reps=reps,
+                mc_states=mcs, mc_trans=mct, hang=(hrc == 3 or hrc2 == 3))
 
 
 def lin_sig(v):
@@ -1076,6 +1110,7 @@ def lin_pipeline(prop, tier, seed, work, t0):
     lc = lin_collect(prop, tier, seed, work, beh, 0)
     val = dict(violations=lc["violations"], stats=[], states=lc["states"])
     extra = dict(histories_judged=lc["runs"], forced_schedules=lc["nsched"], free_running_programs=lc["nfree"],
+                 race_programs=lc["nrace"], runs_per_race_program=lc["race_reps"],
                  history_events=lc["events"], harness_hang=lc["hang"], exhaustive=False,
                  mc_config="ObsConc.tla (3 threads, programs of the families setpoll/drop2/dropup, all interleavings at pause-point granularity), "
                            "DropDecisionAtomic=TRUE")
